@@ -213,9 +213,7 @@ def crosscheck(contract, recs, repo_src, verif_dir, witness=None, n=8, seed=0):
     if not recs:
         return {'samples': 0, 'compared': 0, 'agreed': 0, 'disagreements': []}
     leaves = recs[0][1].leaves
-    cands = []
-    if witness:
-        cands.append(witness)
+    cands = []      # the solver's own witness is not used: its values are often extreme (1/2^22 ...) and provoke round-off artefacts
     tries = 0
     while len(cands) < n * 6 and tries < n * 40:
         tries += 1
